@@ -21,7 +21,7 @@ EXPLANATION = (
     "build1/run_immediate, and in context_close/build1 only under a mode test (compile executes nothing).")
 RULE_TEXT = ("instances = data_stack / heap access events in registry-reachable functions, guard sets of the purge "
              "statements, callers of run; non-trivial = provenance of slice bounds / control-dependence sets")
-ASSUMPTIONS = ["rustc MIR / Instance resolution correct", "A-LATE: `late` cannot bind an immediate word at run time",
+ASSUMPTIONS = ["rustc MIR / Instance resolution correct", "A-LATE (`late` cannot bind an immediate word at run time) is decided by R4 late-binding-refuses-build-time-words since the audit that refuted it as an assumption",
                "programs without user-defined immediate words (the property's quantifier)"]
 
 GUARDED = {'state::State::pop_data', 'state::State::top_data', 'state::State::dup_data', 'state::State::swap_data',
@@ -469,6 +469,26 @@ def check_runtime_code_patches(rep, fx, V, tracked):
             if restores and exists_path_avoiding(f, bb, lambda b: b in rets, restores) is None:
                 continue
         bad.append((how, at))
+    # ... and what the stub binds to is never a build-time (immediate) word: those work on the source being read and are run by
+    # the builder only.  Every self-patching site is reached only after the entry's `immediate` flag was found false
+    unguarded = []
+    from ..pathq import blocks_after as _ba
+    imm_true = []          # where the step function has found `immediate == true` on the entry it is about to bind
+    for b2 in f.reachable_blocks():
+        br = bool_branch(f, b2)
+        if br and 'immediate' in expr_str(br[0], -14):
+            imm_true.append(br[1])
+    after_true = set()
+    for tb in imm_true:
+        after_true |= _ba(f, tb) | {tb}
+    for bb, at, how in sites:
+        if not imm_true or bb in after_true:
+            unguarded.append(how)
+    rep.add('C11.R4', 'C11.R4:late-binding-refuses-build-time-words', not unguarded,
+            'the Resolve stub tests the immediate flag of the entry and fails on it before binding' if not unguarded else
+            'the step function binds a late word without looking at the immediate flag of the entry (%s): `late = : t = ; enum E 1 t A endenum` '
+            'runs the enum builder\'s `=` as an instruction of the program - unbounded native recursion' % ', '.join(sorted(set(unguarded))),
+            STEP, f.j['span'])
     rep.add('C11.R3', 'C11.R3:run-time-code-patch:not-for-good-in-a-meta-block', not bad,
             '%d self-patching sites in the step function: each runs outside MetaEval, or puts the stub back before returning' % n if not bad else
             'the step function overwrites an instruction (%s) also while meta-evaluating and does not put it back: `late foo : bar foo ; '
